@@ -37,7 +37,9 @@ CLAIM = {
 }
 
 # ----------------------------------------------------------------------------- generators
-PIECES = ["func", " f", "(", ")", "{", "}", "\n", ";", "x", "var ", "/*c*/", "//d\n", "type "]
+PIECES = ["func", " f", "(", ")", "{", "}", "\n", ";", "x", "var ", "/*c*/", "//d\n"]
+# statement-level small scope: every sequence of <= 4 of these
+ITEMS = ["x\n", "func f(){}\n", "func(){}()\n", "var a=1\n", "func (t T) m(){}\n", "// c\n", "}\n", "f := func() {\n}\n", "func g()"]
 
 DECLS = ["var a = 1", "var (\n\tb = 2\n\tc = \"s;{\"\n)", "const k = 3", "type T struct {\n\tx int\n}",
          "type I interface {\n\tm()\n}", "var fn = func() {\n}", "var f2 = func(a int) int { return a }",
@@ -155,6 +157,7 @@ def run(ctx):
     model = ctx.model("c24")
     impl = ctx.harness("c24")
     rng = ctx.rng
+    ctx.log("built model and harness")
 
     cases, origin = [], {}
 
@@ -181,9 +184,12 @@ def run(ctx):
             s = "".join(t).encode()
             if not RISKY.search(s):
                 add(s, "exhaustive")
+    for n in range(1, K + 1):
+        for t in itertools.product(ITEMS, repeat=n):
+            add("".join(t), "exhaustive-stmts")
     n_ex = len(cases)
     excluded = 0
-    for i in range(ctx.n(6000, 200000)):
+    for i in range(ctx.n(5000, 200000)):
         k = i % 4
         if k == 0:
             b = gen_script(rng).encode()
@@ -204,6 +210,7 @@ def run(ctx):
     inp = "\n".join(("+" if w else "") + enc(b) for b, w in zip(cases, with_src)) + "\n"
     rc, out = ctx.run([impl], input=inp, timeout=900)
     lines = out.splitlines()
+    ctx.log("harness ran on %d inputs" % len(cases))
     if rc != 0 or len(lines) != len(cases):
         ctx.broken("correspondence(c24:harness-run)", "rc=%d lines=%d cases=%d %s" % (rc, len(lines), len(cases), out[-300:]))
         return
@@ -215,6 +222,7 @@ def run(ctx):
     minp = "\n".join("\t".join([enc(b), f[0], f[1], f[2], f[3]]) for b, f in zip(cases, F)) + "\n"
     rc, mout = ctx.run([model], input=minp, timeout=900)
     mlines = mout.splitlines()
+    ctx.log("model ran")
     if rc != 0 or len(mlines) != len(cases):
         ctx.broken("correspondence(c24:model-run)", "rc=%d lines=%d cases=%d %s" % (rc, len(mlines), len(cases), mout[-300:]))
         return
@@ -260,12 +268,12 @@ def run(ctx):
               samples=[{"src": cases[i].decode("utf-8", "replace")[:300], "impl_hex": F[i][2][:200], "chunks": G[i][2][:200],
                         "source": F[i][1], "source_ex": F[i][4]} for i in pick],
               rule="deterministic: %d finding-set + %d fixed-set + %d _testdata files + every concatenation of <=%d pieces of %d "
-                   "(%d inputs, all distinct); seeded: structured scripts (declarations, functions, methods, generics, function "
+                   "and of <=%d statement-level items of %d (%d inputs, all distinct); seeded: structured scripts (declarations, functions, methods, generics, function "
                    "literals, statements, comments, CRLF, BOM, no trailing newline), their byte-mutations (delete/insert/duplicate/"
                    "truncate/brace insertion/random byte), mutated _testdata, mutated line lists; NOT generated in the seeded part: "
                    "a comment directly after the func keyword (%d candidates dropped; that dimension is the deterministic "
                    "finding-set); non-trivial = distinct source with at least one function chunk after the first non-declaration"
-                   % (len(FINDING_SET), len(FIXED_SET), len(td), K, len(PIECES), n_ex, excluded),
+                   % (len(FINDING_SET), len(FIXED_SET), len(td), K, len(PIECES), K, len(ITEMS), n_ex, excluded),
               origin_histogram=orig_h,
               shape_histogram=dict(sorted(shapes.items(), key=lambda kv: -kv[1])[:40]),
               tiling_checked=len(cases) - len(notil), sourceex_clause_evaluated=sum(with_src))
